@@ -608,6 +608,17 @@ Definition hrg_iso_b (g g' : hrg) (perms : list (list nat * list nat)) : bool :=
            (h_rules g) (h_rules g') &&
   forall3b rule_iso_b (all_rules g) (all_rules g') perms.
 
+(** The property asks for the rules of each left-hand side to be isomorphic in order; it does not
+    fix the order of the left-hand sides among themselves.  [align_rules g g'] presents the rules
+    dictionary of [g'] in the key order of [g] (same [rules_of] for every key of [g], see
+    Proofs/Json_iso.v); the checker is applied to that.  [same_keys_b]: same set of keys. *)
+Definition align_rules (g g' : hrg) : hrg :=
+  mkHRG (h_labels g') (h_start g') (map (fun kl => (fst kl, rules_of (h_rules g') (fst kl))) (h_rules g)).
+
+Definition same_keys_b (g g' : hrg) : bool :=
+  Nat.eqb (length (h_rules g)) (length (h_rules g')) &&
+  forallb (fun kl' => label_mem (fst kl') (map fst (h_rules g))) (h_rules g').
+
 (* ------------------------------------------------------------------------- *)
 (** * Weights: dense tensors, patterned tensors *)
 
